@@ -108,4 +108,22 @@ TEXT.update({
     },
 })
 
+TEXT.update({
+    "C15": {
+        "level_text": "Held on every monitored four-step key-agreement history: all exchanged and derived values equal an independent GB/T 32918.3 run (incl. the GM/T 0003.5 example), honest runs agree with both confirmations true, and for all 16 tamper subsets x 4 kinds the party predicted by the reference history rejects.",
+        "design_ref": "DESIGN.md section 6 C15",
+        "level_note": "Trusted: affine BigUint SM2 reference; RNG hook; hook accessor for the crate-private derived key.",
+        "technique": "runtime history monitor of the 4-step protocol against a reference run, with in-transit tampering of every message subset",
+    },
+})
+
+TEXT.update({
+    "C14": {
+        "level_text": "Held on every monitored invocation of the 13 randomised call sites: hook-observed scalars in range, used == drawn (reference recomputation), no repetition across calls/threads/processes, 8-sigma per-bit statistics against the exact uniform expectation, and fault injection of out-of-range candidates at the RNG byte source.",
+        "design_ref": "DESIGN.md section 6 C14",
+        "level_note": "Trusted: RNG hook placement (after fill_bytes, before the range test), references for recomputation. 'OS-seeded' only observable indirectly.",
+        "technique": "runtime monitor on hooked RNG state: range / used==drawn / duplicate / bit-frequency monitors + fault injection at the byte source",
+    },
+})
+
 NOT_APPLICABLE = []
